@@ -235,7 +235,11 @@ def _objs_of(case):
 
 
 def _hist(case, upto):
-    return " ; ".join("%s.%s = <%s>" % (s[0], s[1], s[2]) for s in case["steps"][:upto + 1])
+    parts = ["%s.%s = <%s>" % (s[0], s[1], s[2]) for s in case["steps"][:upto + 1]]
+    k = case.get("reopen_at")
+    if k is not None and k < len(parts):
+        parts.insert(k, "<save, re-open, continue on the re-opened deck>")
+    return " ; ".join(parts)
 
 
 def run_seq(case, out):
@@ -248,6 +252,16 @@ def run_seq(case, out):
         K, path, ppath = objs[kn]
         P = K.prop(pn)
         V = P.value(label)
+        if case.get("reopen_at") == i:
+            # second editing session: the rest of the history runs on the saved and re-opened deck
+            try:
+                prs = _open(save_bytes(prs))
+                readings = {k2: _read_all(cat.resolve(prs, p2), K2) for k2, (K2, p2, _) in objs.items()}
+            except Exception as e:
+                out.v("readback-reopen", K.name, pn, label, i,
+                      "deck=%s history: %s: save/re-open between the steps raised %s: %s"
+                      % (case["deck"], _hist(case, i), type(e).__name__, e), "|raised=" + type(e).__name__)
+                return
         obj = cat.resolve(prs, path)
         cname = _sigclass(obj, P)
         op = "%s.%s" % (cname, pn)
@@ -415,7 +429,8 @@ def run_case(case):
 
 def _case_key(case):
     if case["t"] == "seq":
-        return (len(case["steps"]), 0 if case["deck"].startswith("bench") else 1, case["deck"], repr(case["steps"]))
+        return (len(case["steps"]), 0 if case.get("reopen_at") is None else 1,
+                0 if case["deck"].startswith("bench") else 1, case["deck"], repr(case["steps"]))
     return (0, 0, case["deck"], repr((case["kind"], case["prop"], case["label"])))
 
 
@@ -493,6 +508,12 @@ def pairs(thorough):
             for b in red:
                 cases.append({"t": "seq", "deck": K.deck, "steps": [list(a), list(b)]})
     return cases
+
+
+def session_pairs(thorough):
+    """Every pair history again as TWO editing sessions: first assignment, save, re-open, second assignment on the
+    re-opened deck (then the usual final save/re-open)."""
+    return [dict(c, reopen_at=1) for c in pairs(thorough)]
 
 
 def cross_pairs(groups, thorough=False):
@@ -615,7 +636,9 @@ def run(ctx):
     ctx.extra["pair_histories"] = len(p2)
     cq = cross_pairs(cat.CROSS_OBJECT_GROUPS_QUICK, thorough)
     ctx.extra["cross_point_pair_histories"] = len(cq)
-    p2 = p2 + cq
+    sp = session_pairs(thorough)
+    ctx.extra["two_session_pair_histories"] = len(sp)
+    p2 = p2 + cq + sp
     if thorough:
         cp, tr = cross_pairs(cat.CROSS_OBJECT_GROUPS), triples()
         ctx.extra["cross_object_pair_histories"] = len(cp)
